@@ -19,15 +19,16 @@ rm $WT/$PKG/zz_demo_test.go
 git -C $WT checkout -q -- . ; git -C $WT clean -fdq
 echo "demo_without=$A (want 0) build_with=$B (want 0) demo_with=$C (want !=0) existing_tests_with=$D (want 0)"
 git -C /repo apply $M/patch.diff || { echo "patch does not apply to /repo"; exit 3; }
-cp /verif/evidence/$P.json /tmp/evidence_$P.bak 2>/dev/null
-(cd /verif && ./check $P > $OUT/check_with.log 2>&1); E=$?
+CP=${CHECK_AS:-$P}   # the check that is expected to notice (normally the seed's own property)
+cp /verif/evidence/$CP.json /tmp/evidence_$CP.bak 2>/dev/null
+(cd /verif && ./check $CP > $OUT/check_with.log 2>&1); E=$?
 git -C /repo checkout -q -- .
-cp /tmp/evidence_$P.bak /verif/evidence/$P.json 2>/dev/null   # evidence must describe the unchanged tree
+cp /tmp/evidence_$CP.bak /verif/evidence/$CP.json 2>/dev/null   # evidence must describe the unchanged tree
 tail -3 $OUT/check_with.log | cut -c1-300
 echo "check_exit=$E (want 1)"
-cp /verif/replays/$P.json $OUT/replay.json 2>/dev/null
+cp /verif/replays/$CP.json $OUT/replay.json 2>/dev/null
 python3 - <<PY
 import json
 json.dump({"property":"$P","seed_id":"$ID","confirmed":{"demo_passes_without":$A==0,"builds_with":$B==0,"demo_fails_with":$C!=0,"existing_tests_pass_with":$D==0},
- "check_detects":$E==1,"ran":"tools/try_seed.sh $P $M $ID $PKG '$RX'"},open("$OUT/meta.json","w"),indent=1)
+ "check_detects":$E==1,"checked_with":"$CP","ran":"tools/try_seed.sh $P $M $ID $PKG '$RX'"},open("$OUT/meta.json","w"),indent=1)
 PY
